@@ -730,6 +730,15 @@ func run(casesPath, outPath string, seed int64, nrandom int) int {
 			continue
 		}
 		reqs = append(reqs, r)
+		// a stage that holds entries sends its messages in map order: whether the error message overtakes data messages is a
+		// matter of chance per request, so row faults on pipelines with such a stage are repeated
+		if strings.HasPrefix(c.Fault, "row_err") && (limitBounded[c.Query] || strings.HasPrefix(c.Query, "big_")) {
+			for k := 2; k <= 5; k++ {
+				rr := r
+				rr.Label = fmt.Sprintf("%s#%d", r.Label, k)
+				reqs = append(reqs, rr)
+			}
+		}
 	}
 	// seeded random / mutated query strings
 	for _, e := range endpoints() {
@@ -859,6 +868,33 @@ func runShard(reqs []Req, probe Req, add func(Finding), mu *sync.Mutex, codes ma
 		rq := reqs[i]
 		ep := strings.SplitN(rq.Label, "|", 2)[0]
 		rs, ok := ch.send(rq)
+		if !ok {
+			if _, m := crashSignature(ch.stderr.String()); m == "" {
+				// no answer and no Go crash report (panic / fatal error): not evidence of a crash - once more on a fresh child
+				mu.Lock()
+				*restarts++
+				mu.Unlock()
+				if !restart() {
+					mu.Lock()
+					*infra = append(*infra, "cannot restart child")
+					mu.Unlock()
+					break
+				}
+				again := rq
+				again.TimeoutS = 30
+				if rs2, ok2 := ch.send(again); ok2 {
+					mu.Lock()
+					codes["answered-on-second-try:"+ep]++
+					mu.Unlock()
+					rs, ok = rs2, true
+				} else if _, m2 := crashSignature(ch.stderr.String()); m2 == "" {
+					mu.Lock()
+					*infra = append(*infra, fmt.Sprintf("request %q: the child stopped answering twice without a Go crash report (killed from outside or out of time)", rq.Label))
+					mu.Unlock()
+					break
+				}
+			}
+		}
 		if !ok {
 			stderr := ch.stderr.String()
 			fn, msg := crashSignature(stderr)
